@@ -1672,4 +1672,258 @@ theorem build_ok_set (rows cols : Nat) (ks : List Key) (h : SortedKeysLe ks) :
 example : SortedKeysLe [[], [], [1], [1], [1, 2], [2]] := by simp [SortedKeysLe, lexLe, lexLt]
 example : dedupKeys [[], [], [1], [1], [1, 2], [2]] = [[], [1], [1, 2], [2]] := by decide
 
+
+/-! ### reachable states, errors -/
+
+/-- states of a builder between public calls -/
+inductive Reachable : BState → Prop
+  | new (rows cols : Nat) : Reachable (BState.new rows cols)
+  | insert {s s' : BState} (k : Key) (v : Nat) : Reachable s → s.insert k v = .ok s' → Reachable s'
+  | add {s s' : BState} (k : Key) : Reachable s → s.add k = .ok s' → Reachable s'
+
+theorem insert_ok_lt {s s' : BState} {k : Key} {v : Nat} (h : s.insert k v = .ok s') :
+    ∀ last, s.last = some last → lexLt last k = true := by
+  intro last hl
+  unfold BState.insert at h
+  cases hck : s.checkLastKey k true with
+  | error e => rw [hck] at h; cases h
+  | ok t => exact (checkLastKey_map_ok_iff k hl).mp ⟨t, hck⟩
+
+theorem add_ok_le {s s' : BState} {k : Key} (h : s.add k = .ok s') :
+    ∀ last, s.last = some last → lexLe last k = true := by
+  intro last hl
+  unfold BState.add at h
+  cases hck : s.checkLastKey k false with
+  | error e => rw [hck] at h; cases h
+  | ok t => exact (checkLastKey_set_ok_iff k hl).mp ⟨t, hck⟩
+
+/-- every reachable state satisfies the builder invariant for some association list -/
+theorem reachable_inv {s : BState} (h : Reachable s) : ∃ acc, Inv s acc := by
+  induction h with
+  | new rows cols => exact ⟨[], Inv_new rows cols⟩
+  | insert k v _ hi ih =>
+    obtain ⟨acc, hinv⟩ := ih
+    obtain ⟨s'', e, i⟩ := insert_new hinv k v (insert_ok_lt hi)
+    rw [hi] at e; cases e
+    exact ⟨_, i⟩
+  | @add s s' k _ ha ih =>
+    obtain ⟨acc, hinv⟩ := ih
+    by_cases hdup : s.last = some k
+    · obtain ⟨s'', acc', e, i, _⟩ := add_dup hinv k hdup
+      rw [ha] at e; cases e
+      exact ⟨_, i⟩
+    · have hlt : ∀ l, s.last = some l → lexLt l k = true := by
+        intro l hl
+        rcases lexLe_iff.mp (add_ok_le ha l hl) with h1 | h1
+        · exact h1
+        · subst h1; exact absurd hl hdup
+      obtain ⟨s'', e, i⟩ := add_new hinv k hlt
+      rw [ha] at e; cases e
+      exact ⟨_, i⟩
+
+/-- map mode: on a reachable state `insert` succeeds exactly on a key strictly greater than
+the last one; otherwise it returns `DuplicateKey` / `OutOfOrder` and nothing else -/
+theorem insert_result {s : BState} (h : Reachable s) (k : Key) (v : Nat) :
+    match s.last with
+    | none => ∃ s', s.insert k v = .ok s'
+    | some last =>
+      if lexLt last k then ∃ s', s.insert k v = .ok s'
+      else if k = last then s.insert k v = .error (.duplicateKey k)
+      else s.insert k v = .error (.outOfOrder last k) := by
+  obtain ⟨acc, hinv⟩ := reachable_inv h
+  cases hl : s.last with
+  | none =>
+    obtain ⟨s', e, _⟩ := insert_new hinv k v (fun l hl' => by rw [hl] at hl'; cases hl')
+    exact ⟨s', e⟩
+  | some last =>
+    simp only
+    by_cases hlt : lexLt last k = true
+    · rw [if_pos hlt]
+      obtain ⟨s', e, _⟩ := insert_new hinv k v (fun l hl' => by rw [hl] at hl'; cases hl'; exact hlt)
+      exact ⟨s', e⟩
+    · rw [if_neg hlt]
+      unfold BState.insert
+      rw [checkLastKey_map k hl, if_neg hlt]
+      split <;> rfl
+
+/-- set mode: on a reachable state `add` succeeds exactly on a key not smaller than the last
+one; otherwise it returns `OutOfOrder` -/
+theorem add_result {s : BState} (h : Reachable s) (k : Key) :
+    match s.last with
+    | none => ∃ s', s.add k = .ok s'
+    | some last =>
+      if lexLe last k then ∃ s', s.add k = .ok s'
+      else s.add k = .error (.outOfOrder last k) := by
+  obtain ⟨acc, hinv⟩ := reachable_inv h
+  cases hl : s.last with
+  | none =>
+    obtain ⟨s', e, _⟩ := add_new hinv k (fun l hl' => by rw [hl] at hl'; cases hl')
+    exact ⟨s', e⟩
+  | some last =>
+    simp only
+    by_cases hle : lexLe last k = true
+    · rw [if_pos hle]
+      rcases lexLe_iff.mp hle with hlt | heq
+      · obtain ⟨s', e, _⟩ := add_new hinv k (fun l hl' => by rw [hl] at hl'; cases hl'; exact hlt)
+        exact ⟨s', e⟩
+      · subst heq
+        obtain ⟨s', _, e, _⟩ := add_dup hinv last hl
+        exact ⟨s', e⟩
+    · rw [if_neg hle]
+      unfold BState.add
+      rw [checkLastKey_set k hl, if_neg hle]
+
+/-- C06: a failing call leaves the builder (pure state and writer) exactly as it was -/
+theorem IOB.step_error (x : IOB) (e : BErr) : (x.step (.error e)).1 = x := rfl
+
+theorem IOB.insert_error (x : IOB) (k : Key) (v : Nat) (e : BErr) (h : x.b.insert k v = .error e) :
+    (x.insert k v).1 = x := by unfold IOB.insert; rw [h]; rfl
+
+theorem IOB.add_error (x : IOB) (k : Key) (e : BErr) (h : x.b.add k = .error e) :
+    (x.add k).1 = x := by unfold IOB.add; rw [h]; rfl
+
+/-! ### layout of the emitted bytes -/
+
+def totalSize (es : List Emit) : Nat := (es.map Emit.size).sum
+
+/-- forward description of the emitted nodes, oldest first: `start` is the address of the
+first byte of the next node, `last` the address of the previously written node -/
+def LayoutF : Nat → Nat → List Emit → Prop
+  | _, _, [] => True
+  | start, last, e :: es =>
+      compileNodeC e.node last start = some e.chunks ∧ 1 ≤ e.size ∧ e.addr = start + e.size - 1 ∧
+      (∀ t ∈ e.node.trans, t.addr < start) ∧
+      LayoutF (start + e.size) e.addr es
+
+theorem LayoutF_snoc : ∀ (es : List Emit) (start last : Nat) (e : Emit),
+    LayoutF start last es →
+    compileNodeC e.node ((es.getLast?.map (·.addr)).getD last) (start + totalSize es) = some e.chunks →
+    1 ≤ e.size → e.addr = start + totalSize es + e.size - 1 →
+    (∀ t ∈ e.node.trans, t.addr < start + totalSize es) →
+    LayoutF start last (es ++ [e])
+  | [], start, last, e, _, h1, h2, h3, h4 => by
+    simp only [totalSize, List.map_nil, List.sum_nil, Nat.add_zero, List.getLast?_nil, Option.map_none,
+      Option.getD_none] at h1 h3 h4
+    exact ⟨h1, h2, h3, h4, trivial⟩
+  | x :: xs, start, last, e, hl, h1, h2, h3, h4 => by
+    obtain ⟨l1, l2, l3, l4, l5⟩ := hl
+    refine ⟨l1, l2, l3, l4, LayoutF_snoc xs _ _ e l5 ?_ h2 ?_ ?_⟩
+    · rw [List.getLast?_cons] at h1
+      have e1 : ((xs.getLast?.map (·.addr)).getD x.addr) = (xs.getLast?.getD x).addr := by
+        cases xs.getLast? <;> rfl
+      simp only [totalSize, List.map_cons, List.sum_cons, Option.map_some, Option.getD_some] at h1
+      rw [e1]
+      simpa [totalSize, Nat.add_assoc] using h1
+    · simp only [totalSize, List.map_cons, List.sum_cons] at h3 ⊢; omega
+    · simp only [totalSize, List.map_cons, List.sum_cons] at h4 ⊢
+      intro t ht; have := h4 t ht; omega
+
+theorem layoutF_of_OutOK : ∀ {es : List Emit} {c l : Nat}, OutOK es c l →
+    LayoutF 16 NONE_ADDRESS es.reverse ∧ c = 16 + totalSize es ∧
+      l = (es.head?.map (·.addr)).getD NONE_ADDRESS
+  | [], c, l, h => by
+    obtain ⟨h1, h2⟩ := h
+    exact ⟨trivial, by simp [totalSize, h1], by simp [h2]⟩
+  | e :: es, c, l, h => by
+    obtain ⟨c0, l0, h0, g1, g2, g3, g4, g5, _, _, _, g6⟩ := h
+    obtain ⟨i1, i2, i3⟩ := layoutF_of_OutOK h0
+    have hts : totalSize es.reverse = totalSize es := by
+      simp [totalSize, List.map_reverse, List.sum_reverse]
+    refine ⟨?_, ?_, ?_⟩
+    · rw [List.reverse_cons]
+      apply LayoutF_snoc _ _ _ _ i1
+      · rw [hts, ← i2, List.getLast?_reverse, ← i3]; exact g1
+      · exact g2
+      · rw [hts, ← i2]; exact g3
+      · rw [hts, ← i2]; intro t ht; exact (g6 t ht).1
+    · simp only [totalSize, List.map_cons, List.sum_cons] at i2 ⊢; omega
+    · simp [g5]
+
+theorem OutOK_increasing : ∀ {es : List Emit} {c l : Nat}, OutOK es c l →
+    es.Pairwise (fun a b => b.addr < a.addr)
+  | [], _, _, _ => List.Pairwise.nil
+  | e :: es, c, l, h => by
+    have hfull := h
+    obtain ⟨c0, l0, h0, _, g2, g3, _⟩ := h
+    rw [List.pairwise_cons]
+    refine ⟨?_, OutOK_increasing h0⟩
+    intro e' he'
+    have := (OutOK_addr h0 (e'.addr, e'.node) (by simp only [rstore, List.mem_map]; exact ⟨e', he', rfl⟩)).2
+    simp only at this
+    omega
+
+/-- everything the byte layer needs to know about the emitted nodes of a state -/
+structure Layout (s : BState) : Prop where
+  /-- each emit is the `compileNodeC` output at its position, addresses are last bytes -/
+  nodes : LayoutF 16 NONE_ADDRESS s.out.reverse
+  count : s.count = 16 + totalSize s.out
+  lastAddr : s.lastAddr = (s.out.head?.map (·.addr)).getD NONE_ADDRESS
+  /-- emitted addresses strictly increase in emission order and lie in `[16, count)` -/
+  increasing : s.out.reverse.Pairwise (fun a b => a.addr < b.addr)
+  range : ∀ e ∈ s.out, 16 ≤ e.addr ∧ e.addr < s.count
+  shape : ∀ e ∈ s.out, e.node.trans.length ≤ 256 ∧ SortedInputs e.node ∧
+    isEmptyFinal e.node = false ∧ (e.node.fin = false → e.node.fout = 0)
+  /-- targets are 0 or an earlier emitted address -/
+  targets : ∀ e ∈ s.out, ∀ t ∈ e.node.trans, t.addr < e.addr ∧
+    (t.addr = 0 ∨ ∃ e' ∈ s.out, e'.addr = t.addr ∧ e'.addr < e.addr)
+  good : GoodStore (storeOf s) (denOf (storeOf s))
+
+theorem layout_of_SInv {s : BState} (h : SInv s) : Layout s := by
+  obtain ⟨l1, l2, l3⟩ := layoutF_of_OutOK h.out
+  have hmem : ∀ e ∈ s.out, (e.addr, e.node) ∈ rstore s.out := by
+    intro e he; simp only [rstore, List.mem_map]; exact ⟨e, he, rfl⟩
+  refine ⟨l1, l2, l3, ?_, ?_, ?_, ?_, goodStore_of_OutOK h.out⟩
+  · rw [List.pairwise_reverse]; exact OutOK_increasing h.out
+  · intro e he; exact OutOK_addr h.out _ (hmem e he)
+  · intro e he
+    obtain ⟨n1, n2, n3, _⟩ := OutOK_node h.out e.addr e.node (hmem e he)
+    exact ⟨sortedInputs_length n1, n1, n2, n3⟩
+  · intro e he t ht
+    obtain ⟨_, _, _, n4⟩ := OutOK_node h.out e.addr e.node (hmem e he)
+    obtain ⟨t1, t2⟩ := n4 t ht
+    refine ⟨t1, ?_⟩
+    rcases t2 with t0 | ⟨m, hm⟩
+    · exact Or.inl t0
+    · simp only [rstore, List.mem_map, Prod.mk.injEq] at hm
+      obtain ⟨e', he', ha, _⟩ := hm
+      exact Or.inr ⟨e', he', ha, by omega⟩
+
+/-- LAYOUT: every reachable state -/
+theorem build_layout {s : BState} (h : Reachable s) : Layout s := by
+  obtain ⟨acc, hinv⟩ := reachable_inv h
+  exact layout_of_SInv hinv.core.sinv
+
+/-- LAYOUT: the state after `finish` (which always succeeds on a reachable state) -/
+theorem build_layout_finish {s : BState} (h : Reachable s) :
+    ∃ s' root, s.finish = .ok (s', root) ∧ Layout s' ∧ s'.len = s.len ∧
+      (root = 0 ∨ ∃ e ∈ s'.out, e.addr = root) := by
+  obtain ⟨acc, hinv⟩ := reachable_inv h
+  obtain ⟨s', root, f1, f2, _, f4, _, f6⟩ := finish_spec hinv.core
+  refine ⟨s', root, f1, layout_of_SInv f2, f6, ?_⟩
+  rcases f4.2 with h0 | ⟨n, hn⟩
+  · exact Or.inl h0
+  · simp only [rstore, List.mem_map, Prod.mk.injEq] at hn
+    obtain ⟨e, he, ha, _⟩ := hn
+    exact Or.inr ⟨e, he, ha⟩
+
+theorem reachable_insertAll : ∀ (kvs : KV) {s s' : BState}, Reachable s → insertAll s kvs = .ok s' →
+    Reachable s'
+  | [], s, s', h, e => by cases e; exact h
+  | kv :: rest, s, s', h, e => by
+    simp only [insertAll] at e
+    cases hi : s.insert kv.1 kv.2 with
+    | error err => rw [hi] at e; cases e
+    | ok s1 => rw [hi] at e; exact reachable_insertAll rest (Reachable.insert kv.1 kv.2 h hi) e
+
+theorem reachable_addAll : ∀ (ks : List Key) {s s' : BState}, Reachable s → addAll s ks = .ok s' →
+    Reachable s'
+  | [], s, s', h, e => by cases e; exact h
+  | k :: rest, s, s', h, e => by
+    simp only [addAll] at e
+    cases hi : s.add k with
+    | error err => rw [hi] at e; cases e
+    | ok s1 => rw [hi] at e; exact reachable_addAll rest (Reachable.add k h hi) e
+
+example : Reachable (BState.new 3 2) := Reachable.new 3 2
+
 end Fst
